@@ -1,6 +1,6 @@
 #!/usr/bin/env python3
 """selftest/run.py [Cxx ...] [-j N]  — runs every mutant (*.patch must give exit 1) and benign variant
-(*.benign.patch must give exit 0; exit 2 tolerated only with --allow-incomplete) of the given
+(*.benign.patch must give exit 0; *.benign2.patch may also give exit 2 = "construct not modelled", never exit 1) of the given
 properties against scratch copies of /repo.  Not part of any registered check."""
 import concurrent.futures, glob, os, subprocess, sys
 HERE = os.path.dirname(os.path.abspath(__file__))
@@ -9,7 +9,7 @@ ROOT = os.path.dirname(HERE)
 def one(pid, patch):
     p = subprocess.run([sys.executable, os.path.join(ROOT, "tools", "mutant_test.py"), pid, patch], capture_output=True, text=True)
     rc = p.returncode
-    benign = patch.endswith(".benign.patch")
+    benign = patch.endswith(".benign.patch") or patch.endswith(".benign2.patch")
     viol = [l for l in p.stdout.splitlines() if l.startswith("  rule=")]
     brk = [l for l in p.stdout.splitlines() if l.startswith("ANALYSIS-BROKEN")]
     return pid, os.path.basename(patch), benign, rc, viol[:2], brk[:2]
@@ -29,7 +29,7 @@ def main():
     with concurrent.futures.ThreadPoolExecutor(max_workers=j) as ex:
         for pid, name, benign, rc, viol, brk in ex.map(lambda a: one(*a), jobs):
             want = "0" if benign else "1"
-            ok = (rc == 0 or (allow2 and rc == 2)) if benign else rc == 1
+            ok = (rc == 0 or ((allow2 or name.endswith(".benign2.patch")) and rc == 2)) if benign else rc == 1
             print("%-4s %-50s %-7s exit=%d %s" % (pid, name, "benign" if benign else "mutant", rc, "ok" if ok else "UNEXPECTED (want %s)" % want))
             for l in (viol if not benign or not ok else []) + (brk if not ok else []):
                 print("       " + l.strip()[:230])
